@@ -57,6 +57,33 @@ def setup_state(sim, S, state, rng, k):
         S.switch_codec(proto.BASE64)
 
 
+def _may_name(d, dl, avoid):
+    """Could the server take this datagram for a request of one of the sessions in `avoid`?  (conservative)"""
+    if d[:3] == proto.RAW_MAGIC:
+        return len(d) > 3 and (d[3] & 0x0F) in avoid
+    try:
+        m = proto.parse_msg(d)
+    except proto.ParseError:
+        return False
+    if m.qr or not m.qd:
+        return False
+    labels = m.qd[0][0]
+    ql = [l.lower() for l in labels]
+    n = len(dl)
+    if len(ql) <= n or ql[len(ql) - n:] != [x.lower() for x in dl]:
+        return False
+    text = b"".join(labels[:len(labels) - n])
+    if not text:
+        return False
+    uid = hostile.named_userid(text)
+    if uid in avoid:
+        return True
+    # bytes outside the Base32 alphabet in the userid position decode implementation-specifically: treat as a possible hit
+    c = text[:1].lower()
+    pos = text[1:3] if c in b"lnp" else text[1:2]
+    return c in b"lnpisor" and any(ch not in proto.B32 and ch not in proto.B32.upper() for ch in pos)
+
+
 STATES = ["after_login", "lazy_held", "mid_upstream", "mid_downstream", "queue_full", "realsoon", "raw", "codec128", "codec64", "big_frag"]
 
 
@@ -130,6 +157,10 @@ def one_run(params):
                 else:
                     k.offer_tun("srv", hostile.hostile_tun_frame(rng), None)
                 d = None
+            if d is not None and avoid and src is att and _may_name(d, dl, avoid):
+                # without source checking anybody who names a session may legitimately drive it: hostile traffic
+                # from outsiders must not (even accidentally) name the healthy session
+                d = hostile.arbitrary(rng)[:11]
             if d is not None:
                 recent.append((cls, d))
                 if len(recent) > 4:
